@@ -45,7 +45,7 @@ class C01(Check):
     ASSUMPTIONS = ['texts the format cannot express are excluded exactly as listed in the property (plus header values '
                    'with edge blanks, trailing backslash or the {{}} token, and header keys equal to a table name)',
                    'enum columns are compared as label text; unicode input columns must come back as byte strings at least as wide']
-    REQUIRED_COUNTERS = ('refusals_seen', 'zero_row_tables', 'float_cells_compared', 'string_cells_compared',
+    REQUIRED_COUNTERS = ('record_layout_view_permuted', 'record_layout_aligned', 'refusals_seen', 'zero_row_tables', 'float_cells_compared', 'string_cells_compared',
                          'table_api_roundtrips', 'hdr_values_compared')
 
     def setup(self):
@@ -211,7 +211,9 @@ class C01(Check):
                 'byteorder': '>' if cls == 'byteorder' else '=',
                 'api': 'table' if cls == 'table_api' else 'ndarray',
                 'single_not_list': ntab == 1 and rng.random() < 0.5,
-                'default_names': cls == 'mixed' and rng.random() < 0.15}
+                'default_names': cls == 'mixed' and rng.random() < 0.15,
+                # memory layout of the record arrays handed to the writer (field order is the document's in every layout)
+                'field_layout': rng.choice(['packed', 'packed', 'packed', 'view_permuted', 'aligned'])}
 
     def _names(self, cls, rng, ntab):
         names = []
@@ -304,6 +306,10 @@ class C01(Check):
 
     def run_ndarray(self, case, out, fn):
         arrays = [M.build_array(t, case['byteorder']) for t in case['tables']]
+        fl = case.get('field_layout', 'packed')
+        if fl != 'packed':
+            arrays = [M.relayout_fields(a, fl, seed=k) for k, a in enumerate(arrays)]
+            out.count('record_layout_' + fl)
         names = [t['name'] for t in case['tables']]
         hdr = None
         if case['hdr']:
